@@ -12,6 +12,7 @@ R5 a parameter that a function takes over (stores into an object, releases or ha
    taking parameter) is taken over on every normal path, unless the path established it is NULL:
    callers treat the hand-over as unconditional.
 (R3 teardown order is decided with C13.R3.)
+R6 container contract (rules/vecrule.py): libmy/vector.h keeps its invariants, element preservation, post-conditions and memory safety in every scenario (init/detach/destroy of the vectors are the allocation primitives under most owning fields).
 """
 import re
 from .common import *
@@ -254,6 +255,10 @@ def run(ctx, res):
     res.check(good, "C18.R4", "mtbl_reader:munmap", "munmap(data, len_data) with the length that was mapped",
               "munmap is not called with the mapped pointer and length", rd.loc(mu[0]) if mu else rd.loc(rd.body))
 
+
+    # ---- container contract ---------------------------------------------------------------------
+    from . import vecrule
+    vecrule.check(ctx, res, "C18.R6")
 
 HANDOVERS = set()   # (callee, parameter index) through which an acquired object was handed over on some analysed path
 
